@@ -14,16 +14,20 @@ VERIF = os.path.dirname(os.path.dirname(os.path.abspath(__file__)))
 
 
 def main():
+    # usage: adopt_seed.py <Cxx> <k> [<source root prefix, default /tmp/seed_> [<number to store it under>]]
     pid, k = sys.argv[1], sys.argv[2]
-    src = "/tmp/seed_%s/_seed/%s" % (pid, k)
-    conf_path = "/tmp/seedconf/%s_%s.json" % (pid, k)
+    prefix = sys.argv[3] if len(sys.argv) > 3 else "/tmp/seed_"
+    as_k = sys.argv[4] if len(sys.argv) > 4 else k
+    src = "%s%s/_seed/%s" % (prefix, pid, k)
+    tag = "" if prefix == "/tmp/seed_" else os.path.basename(prefix.rstrip("_")) + "_"
+    conf_path = "/tmp/seedconf/%s%s_%s.json" % (tag, pid, k)
     conf = json.load(open(conf_path))
     ok = (conf["patch_applies"] and conf["demo_rc_clean"] == 0 and conf["demo_rc_patched"] != 0
           and conf["suite_passed"] >= 269 and not conf["suite_unexpected_failures"])
     if not ok:
         print("NOT ADOPTED (confirmation failed):", pid, k, conf)
         return 1
-    dst = os.path.join(VERIF, "seeded", "%s-%s" % (pid, k))
+    dst = os.path.join(VERIF, "seeded", "%s-%s" % (pid, as_k))
     os.makedirs(dst, exist_ok=True)
     for fn in os.listdir(src):
         a = os.path.join(src, fn)
